@@ -4,6 +4,7 @@ import warnings
 
 import c01gen as G
 import c01translate
+import c02gen as H
 import vlib
 
 PROPS = "Props/C02.v"
@@ -193,7 +194,7 @@ def make_scripted(policy, rng, ms, script, log, given):
                 return False
             self.prev = a
             for v, x in zip(self.variables, a):
-                v.sol = x
+                v.sol = H.fresh(x)       # a real backend creates the value anew on every solve (as_long(), int(token))
             return True
     return Scripted
 
@@ -261,6 +262,295 @@ def make_native(ms, keys, seen):
     return Native
 
 
+# ----------------------------------------------------------------- scenarios (harness/c02gen.py)
+# whole histories of one Solver: declarations (vars / arrays), ensure and add_answer_key fed
+# through every kind of iterable (lists, tuples, arrays, generators, map, zip, nested generators ...),
+# far / wide integer domains with values created at run time, several solve() calls on the same
+# object with more constraints / more keys / overwritten sol fields in between, the backend given
+# as a class, by name or through config.default_backend.
+
+def make_native2(ms, seen):
+    """protocol-conformant deduction backend that answers for the answer keys it is
+    actually asked about (the '#' line of the description)."""
+    from cspuz.backend.sugar_like import SugarLikeBackend
+
+    class Native2(SugarLikeBackend):
+        def _call_solver(self, desc):
+            seen.append(desc)
+            if not ms:
+                return "unsat\n"
+            asked = [ln for ln in desc.split("\n") if ln.startswith("#")]
+            names = asked[-1][1:].split() if asked else []
+            lines = ["sat"]
+            for nm in names:
+                i = int(nm[1:])
+                vals = set(m[i] for m in ms)
+                if len(vals) == 1:
+                    a = ms[0][i]
+                    lines.append("%s %s" % (nm, ("true" if a else "false") if isinstance(a, bool) else str(a)))
+            return "\n".join(lines) + "\n"
+    return Native2
+
+
+class z3_route(object):
+    """Solver.solve reaches the (call-bounded) z3 backend through the class itself, through
+    its name, or through config.default_backend."""
+
+    def __init__(self, how, bound):
+        self.how, self.bound, self.cls = how, bound, bounded_z3(bound)
+
+    def __enter__(self):
+        import cspuz.backend.z3 as zmod
+        from cspuz.configuration import config
+        self.zmod, self.config = zmod, config
+        self.saved = (zmod.Z3Backend, config.default_backend)
+        if self.how == "class":
+            return {"backend": self.cls}
+        zmod.Z3Backend = self.cls
+        if self.how == "name":
+            return {"backend": "z3"}
+        config.default_backend = "z3"
+        return {"backend": None} if self.bound % 2 else {}        # explicit None = omitted
+
+    def __exit__(self, *a):
+        self.zmod.Z3Backend, self.config.default_backend = self.saved
+        return False
+
+
+def trees_sorted(cs):
+    import exprio
+    return sorted(exprio.show(c) for c in cs)
+
+
+def run_scenario(sc):
+    """-> list of records, one per solve() (or one final record for a step that raised)."""
+    import random
+    from cspuz import Solver
+    decls, cands = sc["decls"], sc["cands"]
+    recs = []
+    s = Solver()
+    r0 = vlib.guarded(lambda: H.declare2(s, decls, sc["decl_form"], len(sc["steps"])))
+    if r0[0] == "err":
+        return [{"step": -1, "setup_err": r0[1], "what": "declare[%s]" % sc["decl_form"]}]
+    vs = r0[1]
+    s.ensure([G.build(c, vs) for c in H.dom_cons(decls, cands)])
+    for n, st in enumerate(sc["steps"]):
+        if st[0] == "ensure":
+            r = vlib.guarded(lambda: H.post(s, vs, st[1], st[2], st[3]))
+            if r[0] == "err":
+                recs.append({"step": n, "setup_err": r[1], "what": "ensure[%s]" % st[2]})
+                return recs
+        elif st[0] == "keys":
+            r = vlib.guarded(lambda: H.add_keys(s, vs, st[1], st[2], st[3]))
+            if r[0] == "err":
+                recs.append({"step": n, "setup_err": r[1], "what": "add_answer_key[%s]" % st[2]})
+                return recs
+        elif st[0] == "scramble":
+            H.scramble(vs, decls, st[1])
+        else:
+            cons, keys = H.intended(sc, n)
+            ms = H.models2(decls, cands, cons)
+            f = G.facts(ms, keys)
+            before = (trees_sorted(s.constraints), list(s.is_answer_key), [v.sol for v in vs])
+            rec = {"step": n, "backend": st[1], "how": st[2], "keys": keys, "cons": cons, "exp": f,
+                   "impl_keys": before[1], "impl_cons": before[0]}
+            with warnings.catch_warnings():
+                warnings.simplefilter("ignore")
+                if st[1] == "z3":
+                    with z3_route(st[2], sum(1 for k in s.is_answer_key if k) + 4) as kw:
+                        r = vlib.guarded(lambda: s.solve(**kw))
+                elif st[1] == "native":
+                    cls = make_native2(ms, [])
+                    r = vlib.guarded(lambda: s.solve(backend=cls))
+                else:
+                    log, given = [], []
+                    cls = make_scripted(st[1][5:], random.Random(7919 * n + len(ms)), ms, None, log, given)
+                    r = vlib.guarded(lambda: s.solve(backend=cls))
+                    rec["log"], rec["given"] = log, given
+            if r[0] == "err":
+                r = ("err", r[1] if r[1] in ERR.values() else "Other")
+            rec["result"], rec["sols"] = r, [v.sol for v in vs]
+            rec["pure"] = (trees_sorted(s.constraints) == before[0] and list(s.is_answer_key) == before[1])
+            rec["sols_before"] = before[2]
+            rec["state"] = G.state_tok(decls, keys, list(s.constraints))
+            recs.append(rec)
+    return recs
+
+
+def reference_setup(sc, upto):
+    """the same declarations, constraints and keys given as plain lists to a fresh Solver."""
+    from cspuz import Solver
+    cons, keys = H.intended(sc, upto)
+    s = Solver()
+    vs = G.declare(s, sc["decls"])
+    s.ensure([G.build(c, vs) for c in cons])
+    ks = [v for v, k in zip(vs, keys) if k]
+    if ks:
+        s.add_answer_key(ks)
+    return trees_sorted(s.constraints), list(s.is_answer_key)
+
+
+def rec_fails(rec):
+    """does the property fail at this solve()?  -> None | (category, text)"""
+    if "setup_err" in rec:
+        return "setup", "%s raises %s" % (rec["what"], rec["setup_err"])
+    f, r, keys, sols = rec["exp"], rec["result"], rec["keys"], rec["sols"]
+    er = ("ok", f is not None)
+    if r != er:
+        return "verdict", "solve() -> %s, but the program is %s" % (
+            r[1] if r[0] == "ok" else "raises " + r[1], "satisfiable" if er[1] else "unsatisfiable")
+    if f is not None:
+        for i, k in enumerate(keys):
+            if k and (sols[i] != f[i] or type(sols[i]) is not type(f[i])):
+                return "fact", "answer key #%d: sol = %r, but %s" % (
+                    i, sols[i], ("every solution has %r" % (f[i],)) if f[i] is not None else "two solutions differ on it")
+    return None
+
+
+def scenario_fails(sc):
+    """-> None | (category, text, step)"""
+    for rec in run_scenario(sc):
+        x = rec_fails(rec)
+        if x:
+            return x[0], "step %d %s: %s" % (rec["step"], "solve(%s)" % rec.get("backend", "") if "result" in rec else "", x[1]), rec["step"]
+    return None
+
+
+def shrink_scenario(sc, cat, budget=150):
+    used = [0]
+
+    def still(c):
+        used[0] += 1
+        try:
+            x = scenario_fails(c)
+        except Exception:
+            return False
+        return x is not None and x[0] == cat
+
+    def with_steps(steps):
+        d = dict(sc)
+        d["steps"] = steps
+        return d
+    x = scenario_fails(sc)
+    if x is None:
+        return sc
+    sc = with_steps(sc["steps"][: x[2] + 1])             # nothing after the failing step matters
+    if sc["decl_form"] != "vars":
+        c = dict(sc)
+        c["decl_form"] = "vars"
+        if still(c):
+            sc = c
+    progress = True
+    while progress and used[0] < budget:
+        progress = False
+        steps = sc["steps"]
+        for i in range(len(steps) - 1):                  # drop a step
+            c = with_steps(steps[:i] + steps[i + 1:])
+            if still(c):
+                sc, progress = c, True
+                break
+        if progress:
+            continue
+        for i, st in enumerate(steps):                   # plain forms where the form does not matter
+            if st[0] in ("ensure", "keys") and st[2] != "list":
+                c = with_steps(steps[:i] + [(st[0], st[1], "list", 0)] + steps[i + 1:])
+                if still(c):
+                    sc, progress = c, True
+                    break
+            if st[0] == "solve" and st[2] != "class":
+                c = with_steps(steps[:i] + [(st[0], st[1], "class")] + steps[i + 1:])
+                if still(c):
+                    sc, progress = c, True
+                    break
+            if st[0] == "keys" and len(st[1]) > 1:
+                for j in range(len(st[1])):
+                    c = with_steps(steps[:i] + [(st[0], st[1][:j] + st[1][j + 1:], st[2], st[3])] + steps[i + 1:])
+                    if still(c):
+                        sc, progress = c, True
+                        break
+                if progress:
+                    break
+    for i, st in enumerate(sc["steps"]):                 # smaller constraints
+        if st[0] == "ensure" and st[1] and used[0] < budget:
+            def f(_d, cs, i=i, st=st):
+                return still(with_steps(sc["steps"][:i] + [(st[0], list(cs), st[2], st[3])] + sc["steps"][i + 1:]))
+            small = G.shrink(sc["decls"], st[1], f, budget=max(10, (budget - used[0]) // 2))
+            sc = with_steps(sc["steps"][:i] + [(st[0], small, st[2], st[3])] + sc["steps"][i + 1:])
+    return sc
+
+
+def report_scenario(ctx, sc, first):
+    small = shrink_scenario(sc, first[0])
+    now = scenario_fails(small)
+    if now is None or now[0] != first[0]:
+        small, now = sc, first
+    cons, keys = H.intended(small, now[2] + 1)
+    ms = H.models2(small["decls"], small["cands"], cons)
+    ctx.violation("scenario-%s-%s" % (now[0], md5(repr(small))), now[1],
+                  {"scenario": repr(small), "history": H.show_steps(small),
+                   "decls": [list(d) if d != "b" else "b" for d in small["decls"]],
+                   "candidates": {str(k): v for k, v in small["cands"].items()},
+                   "decl_form": small["decl_form"], "keys": keys,
+                   "program": [G.show_surface(c) for c in cons], "expected_facts": G.facts(ms, keys),
+                   "category": now[0], "backend": "scenario"})
+
+
+def scenario_stream(ctx, rng, m, n):
+    """correspondence part: every solve() of every scenario against the extracted model."""
+    import exprio
+    scs, reqs, slots = [], [], []
+    for it in range(n):
+        sc = H.gen_scenario(ctx, rng)
+        try:
+            recs = run_scenario(sc)
+        except Exception as ex:      # noqa   the harness itself must not hide a crash
+            ctx.mismatches.append({"kind": "scenario-harness", "input": repr(sc), "model": "runs", "impl": vlib.err_name(ex)})
+            continue
+        scs.append((sc, recs))
+        for st in sc["steps"]:
+            if st[0] in ("ensure", "keys"):
+                ctx.count("form:%s:%s" % (st[0], st[2]))
+        narrow = H.max_width(sc) <= 8
+        for rec in recs:
+            if "setup_err" in rec:
+                ctx.corr("sc-setup", (repr(sc), rec["step"]), "accepted", "%s raises %s" % (rec["what"], rec["setup_err"]))
+                continue
+            ctx.count("sc-solve:%s:%s" % (rec["backend"].split(":")[0], rec["how"]))
+            # the API forms: what the Solver holds must be what it holds when given plain lists
+            ref = reference_setup(sc, rec["step"])
+            ctx.corr("sc-forms", (repr(sc), rec["step"]), "K %r C %s" % (ref[1], " ".join(ref[0])),
+                     "K %r C %s" % (rec["impl_keys"], " ".join(rec["impl_cons"])))
+            if not rec["pure"]:
+                ctx.mismatches.append({"kind": "sc-solve-changes-program", "input": repr(sc), "model": "solve() leaves constraints / is_answer_key alone", "impl": "changed at step %d" % rec["step"]})
+            if rec["result"] == ("ok", False):
+                after = rec["sols"]
+                ctx.count("sc-unsat-sol:" + ("kept" if after == rec["sols_before"] else "cleared" if all(x is None for x in after) else "other"))
+            if rec["backend"] == "z3" and narrow:
+                ksols = [x if k else None for x, k in zip(rec["sols"], rec["keys"])]
+                reqs.append("SOLVEKEYS " + rec["state"])
+                slots.append(("sc-solve-z3", (repr(sc), rec["step"]), result_tok(rec["result"], ksols)))
+            elif rec["backend"].startswith("live:"):
+                clauses = [c for k, c in rec["log"] if k == "add"]
+                req = "SCRIPT auto %s [%s ] %s" % (G.decls_tok(sc["decls"]), "".join(" 1" if k else " 0" for k in rec["keys"]),
+                                                   script_tok(rec["given"]))
+                reqs.append(req)
+                slots.append(("sc-scripted", (repr(sc), rec["step"]), result_tok(rec["result"], rec["sols"]) + " | " + exprio.show_list(clauses)))
+    outs = m.batch(reqs)
+    for (kind, inp, impl), o in zip(slots, outs):
+        ctx.corr(kind, inp, o, impl)
+    return scs
+
+
+def scenario_search(ctx, scs):
+    for sc, recs in scs:
+        for rec in recs:
+            ctx.prop_case("scenario-solve-vs-enumeration", (repr(sc), rec["step"]))
+            x = rec_fails(rec)
+            if x:
+                report_scenario(ctx, sc, (x[0], x[1], rec["step"]))
+                break
+
+
 # ----------------------------------------------------------------- correspondence
 
 def correspond(ctx):
@@ -295,6 +585,11 @@ def correspond(ctx):
         ctx.corr("solve-z3", c["state"], outs[2 * i], result_tok(c["result"], c["ksols"]))
         c["coq_facts"] = outs[2 * i + 1]
     ctx._c02["z3"] = cases
+
+    n = 450 if not ctx.thorough else 5000
+    if getattr(ctx, "deep", False):
+        n *= 3
+    ctx._c02["scenarios"] = scenario_stream(ctx, rng, m, n)
 
 
 # ----------------------------------------------------------------- search
@@ -384,10 +679,23 @@ def search(ctx):
                               {"decls": [list(d) if d != "b" else "b" for d in c["decls"]], "keys": c["keys"],
                                "program": [G.show_surface(x) for x in c["cons"]], "surface": repr(c["cons"]),
                                "backend": "live:" + c["policy"], "expected_facts": f, "script": c["req"]})
+    scs = data.get("scenarios") if data else None
+    if scs is None:
+        scs = []
+        for it in range(300):
+            sc = H.gen_scenario(ctx, rng)
+            scs.append((sc, run_scenario(sc)))
+    scenario_search(ctx, scs)
     if getattr(ctx, "deep", False) and not ctx.violations:
         for it in range(800):
             decls, cons, keys = gen_program(ctx, rng)
             check_case(ctx, decls, cons, keys, "z3")
+            if len(ctx.violations) >= 3:
+                break
+    if getattr(ctx, "deep", False) and not ctx.violations:
+        for it in range(1500):
+            sc = H.gen_scenario(ctx, rng)
+            scenario_search(ctx, [(sc, run_scenario(sc))])
             if len(ctx.violations) >= 3:
                 break
 
@@ -395,6 +703,12 @@ def search(ctx):
 def replay(ctx, rp):
     v = rp.get("violation", {}).get("detail", {})
     print(rp.get("violation", rp))
+    if v and v.get("backend") == "scenario":
+        sc = eval(v["scenario"], {})     # written by this harness: a dict of literals
+        x = scenario_fails(sc)
+        print("history:", "; ".join(H.show_steps(sc)))
+        print("now:", x[1] if x else "property holds on this input")
+        return 1 if x else 0
     if not v or "surface" not in v or v.get("backend") not in ("z3", "native"):
         return 0
     decls = [d if d == "b" else tuple(d) for d in v["decls"]]
